@@ -208,7 +208,7 @@ impl Property for C20 {
          unique valid name, help text, 0-2 constant labels, 1-3 label names, an accepted bucket list, and a registry without / with \
          prefix and common labels. Oracle per (arm, input): Ok(handle) whose descriptor equals the explicit constructor's field by \
          field (and whose collected bucket bounds equal the expected ones); a unique update through the handle is visible in gather() \
-         of the targeted registry (the named one, or the default registry) and not in the other; every argument expression is evaluated exactly once (in which order is not part of the statement: the explicit equivalents of some arms build the options, buckets included, before they look at the label names); invoking the arm again evaluates to \
+         of the targeted registry (the named one, or the default registry) and not in the other; every argument expression is evaluated exactly once (in which order is not part of the statement: the explicit equivalents of some arms build the options, buckets included, before they look at the label names); invoking the arm again - with the same input, and with another help text and a further constant label - evaluates to \
          Err and leaves the first metric registered with its value; labels!/opts!/histogram_opts! values equal the explicitly built ones. Non-trivial: the input has >= 1 constant label or \
          >= 2 label names or non-default buckets or a registry with prefix/labels. Distinct = decoded choices."
     }
@@ -433,6 +433,33 @@ impl Property for C20 {
                     return fail("macro-ok-on-refused-registration", ctx("second invocation with the same input evaluated to Ok"));
                 }
                 Ok(Err(_)) => {}
+            }
+            // a second kind of refusal: the same name with another help text and another constant-label value (a different descriptor
+            // that disagrees with what the name stands for): Err, not a panic and not Ok - whatever error it is
+            {
+                let mut consts2 = input.consts.clone();
+                consts2.insert("c20_other".to_string(), "v".to_string());
+                let input2 = ArmInput {
+                    name: input.name.clone(),
+                    help: format!("{} (another help)", input.help),
+                    consts: consts2,
+                    label_names: input.label_names.clone(),
+                    buckets: input.buckets.clone(),
+                    registry: input.registry.clone(),
+                };
+                match std::panic::catch_unwind(std::panic::AssertUnwindSafe(|| (arm.call)(&input2))) {
+                    Err(_) => {
+                        unregister(&handle);
+                        return fail("macro-panicked-on-refused-registration", ctx("an invocation under the registered name with another help text and constant label panicked"));
+                    }
+                    Ok(Ok(h2)) => {
+                        unregister(&handle);
+                        unregister(&h2);
+                        return fail("macro-ok-on-refused-registration", ctx("an invocation under the registered name with another help text was accepted"));
+                    }
+                    Ok(Err(_)) => {}
+                }
+                let _ = take_order();
             }
             // ... and, like the refused explicit call, leaves the metric registered before it where it is
             match find(target, &tprefix, &fq) {
